@@ -440,6 +440,7 @@ CHECKS["C18"] = {
     "technique": "property-based scenario generation (rapid) on real sockets with history invariants",
     "nontrivial_floor": 10,
     "units": [
+        {"name": "spin-signals", "run": "^TestC18Signals$", "kind": "plain"},
         {"name": "standard-transport", "run": "^TestC18Standard$", "kind": "rapid", "checks": {"quick": 64, "thorough": 640}, "shards": {"quick": 16, "thorough": 16}, "shrinktime": "30s"},
         {"name": "netpoll-transport", "run": "^TestC18Netpoll$", "kind": "rapid", "checks": {"quick": 32, "thorough": 480}, "shards": {"quick": 16, "thorough": 16}, "shrinktime": "30s"},
     ],
